@@ -88,38 +88,53 @@ def run(db, chk, quad: bool = False) -> None:
     chk.floor("C03.R3-builder", 8)
 
 
-def _loop_discipline(chk, mod, f, open_test_ok, stack_name="stack"):
+def _stack_loop(f):
+    """(loop, stack variable) : the for-loop in which one local list is both appended to and popped from"""
+    for lp in [n for n in ast.walk(f) if isinstance(n, ast.For)]:
+        app = {H.name_id(c.func.value) for c in ast.walk(lp) if isinstance(c, ast.Call) and isinstance(c.func, ast.Attribute) and c.func.attr == "append" and isinstance(c.func.value, ast.Name)}
+        pop = {H.name_id(c.func.value) for c in ast.walk(lp) if isinstance(c, ast.Call) and isinstance(c.func, ast.Attribute) and c.func.attr == "pop" and isinstance(c.func.value, ast.Name)}
+        both = app & pop
+        if len(both) == 1:
+            return lp, both.pop()
+    return None, None
+
+
+def _loop_discipline(chk, mod, f, open_test_ok):
     where = mod.loc(f)
-    loops = [n for n in ast.walk(f) if isinstance(n, ast.For) and any(isinstance(c, ast.Call) and isinstance(c.func, ast.Attribute) and c.func.attr == "append" and H.name_id(c.func.value) == stack_name
-                                                                     for c in ast.walk(n))]
-    if len(loops) != 1:
-        chk.ob("C03.R3-builder", f"{mod.name}: one scan loop pushing on the stack", None, where, found=len(loops))
+    lp, stack_name = _stack_loop(f)
+    if lp is None:
+        chk.ob("C03.R3-builder", f"{mod.name}: one scan loop pushing on and popping from a stack", None, where, found="no such loop")
         return None
-    lp = loops[0]
     top = [s for s in lp.body if isinstance(s, ast.If)]
     if len(top) != 1 or len(lp.body) != 1:
-        chk.ob("C03.R3-builder", f"{mod.name}: loop body is one open/close decision", None if len(top) != 1 else False, where, found=[type(s).__name__ for s in lp.body], accepted="if <open>: ... else: ...")
+        chk.ob("C03.R3-builder", f"{mod.name}: loop body is one open/close decision", None, where, found=[type(s).__name__ for s in lp.body], accepted="if <open>: ... else: ...")
         return None
     iff = top[0]
     chk.ob("C03.R3-builder", f"{mod.name}: the branch test distinguishes OPEN endpoints with the encoding's constant", open_test_ok(iff.test, lp), where, found=ast.unparse(iff.test), accepted="kind == OPEN")
     ob, cb = iff.body, iff.orelse
-    # open branch: parent = stack top or root ; one _add_edge(parent, ev) ; one push
-    pushes = [c for s in ob for c in ast.walk(s) if isinstance(c, ast.Call) and isinstance(c.func, ast.Attribute) and c.func.attr == "append" and H.name_id(c.func.value) == stack_name]
+    is_stack_call = lambda c, names: isinstance(c, ast.Call) and isinstance(c.func, ast.Attribute) and c.func.attr in names and H.name_id(c.func.value) == stack_name
+    pushes = [c for s in ob for c in ast.walk(s) if is_stack_call(c, ("append",))]
     edges = [c for s in ob for c in ast.walk(s) if isinstance(c, ast.Call) and isinstance(c.func, ast.Attribute) and c.func.attr == "_add_edge"]
-    pops_open = [c for s in ob for c in ast.walk(s) if isinstance(c, ast.Call) and isinstance(c.func, ast.Attribute) and c.func.attr in ("pop", "clear", "remove", "insert") and H.name_id(c.func.value) == stack_name]
-    parent_defs = [s for s in ob if isinstance(s, ast.If)]
-    pd_ok = False
-    if len(parent_defs) == 1:
-        pi = parent_defs[0]
-        t = ast.unparse(pi.test).replace(" ", "")
-        body_src = ast.unparse(pi.body[0]) if len(pi.body) == 1 else ""
-        pd_ok = t in (f"len({stack_name})>0", stack_name, f"len({stack_name})!=0") and f"{stack_name}[-1]" in body_src and len(pi.orelse) == 1
-    chk.ob("C03.R3-builder", f"{mod.name}: OPEN: parent = top of the stack (root when empty)", pd_ok, where, found=[ast.unparse(p)[:120] for p in parent_defs], accepted="parent = stack[-1] if stack else root")
-    chk.ob("C03.R3-builder", f"{mod.name}: OPEN: exactly one edge parent->event and exactly one push, no pop", len(pushes) == 1 and len(edges) == 1 and not pops_open and
-           [H.name_id(a) for a in edges[0].args[:1]] == ["parent_index"], where, found={"pushes": len(pushes), "edges": [ast.unparse(e) for e in edges], "pops": len(pops_open)}, accepted="_add_edge(parent_index, ev); stack.append(ev)")
-    # close branch: exactly one pop, guarded at most by non-emptiness
-    pops = [c for s in cb for c in ast.walk(s) if isinstance(c, ast.Call) and isinstance(c.func, ast.Attribute) and c.func.attr == "pop" and H.name_id(c.func.value) == stack_name]
-    other = [c for s in cb for c in ast.walk(s) if isinstance(c, ast.Call) and isinstance(c.func, ast.Attribute) and c.func.attr in ("append", "clear", "remove", "insert", "extend") and H.name_id(c.func.value) == stack_name]
+    pops_open = [c for s in ob for c in ast.walk(s) if is_stack_call(c, ("pop", "clear", "remove", "insert"))]
+    # parent definition: if <stack non-empty>: parent = stack[-1](.idx)  else: parent = <root>
+    pd_ok, parent_var = False, None
+    for pi in [s for s in ob if isinstance(s, ast.If)]:
+        b = None
+        for gpat in (f"len({stack_name}) > 0", f"{stack_name}", f"len({stack_name}) != 0", f"len({stack_name}) >= 1"):
+            if H.match(gpat, pi.test) is not None:
+                b = H.Bindings()
+                break
+        if b is None or len(pi.body) != 1 or len(pi.orelse) != 1:
+            continue
+        for vpat in (f"$p = {stack_name}[-1]", f"$p = {stack_name}[-1].idx"):
+            r = H.match(vpat, pi.body[0])
+            if r is not None and isinstance(pi.orelse[0], ast.Assign) and H.name_id(pi.orelse[0].targets[0]) == r["__mv_p"]:
+                pd_ok, parent_var = True, r["__mv_p"]
+    chk.ob("C03.R3-builder", f"{mod.name}: OPEN: parent = top of the stack (root when empty)", pd_ok, where, found=[ast.unparse(p)[:120] for p in ob if isinstance(p, ast.If)], accepted="parent = stack[-1] if stack else root")
+    chk.ob("C03.R3-builder", f"{mod.name}: OPEN: exactly one edge parent->event and exactly one push, no pop", len(pushes) == 1 and len(edges) == 1 and not pops_open and pd_ok and
+           [H.name_id(a) for a in edges[0].args[:1]] == [parent_var], where, found={"pushes": len(pushes), "edges": [ast.unparse(e) for e in edges], "pops": len(pops_open)}, accepted="_add_edge(parent, ev); stack.append(ev)")
+    pops = [c for s in cb for c in ast.walk(s) if is_stack_call(c, ("pop",))]
+    other = [c for s in cb for c in ast.walk(s) if is_stack_call(c, ("append", "clear", "remove", "insert", "extend"))]
     guards = [s for s in cb if isinstance(s, ast.If)]
     guard_ok = True
     gtxt = []
@@ -128,7 +143,7 @@ def _loop_discipline(chk, mod, f, open_test_ok, stack_name="stack"):
         gtxt.append(ast.unparse(g.test))
         if not names <= {stack_name, "len"}:
             guard_ok = False
-    pop_arg_ok = all((not p.args) or (isinstance(p.args[0], ast.UnaryOp) and ast.unparse(p.args[0]) == "-1") for p in pops)
+    pop_arg_ok = all((not p.args) or ast.unparse(p.args[0]) == "-1" for p in pops)
     chk.ob("C03.R3-builder", f"{mod.name}: CLOSE: exactly one pop of the top, conditional on nothing but the stack being non-empty", len(pops) == 1 and not other and guard_ok and pop_arg_ok, where,
            found={"pops": [ast.unparse(p) for p in pops], "guards": gtxt, "other": len(other)}, accepted="if len(stack) > 0: stack.pop(-1)",
            why="a pop that depends on which event is on top leaves finished events on the stack (every later event gets them as parent)")
@@ -142,8 +157,7 @@ def _builders(db, chk, new, old, OPEN_N, CLOSE_N, START_O, END_O):
     def open_new(test, lp):
         names = [H.name_id(e) for e in lp.target.elts] if isinstance(lp.target, ast.Tuple) else []
         kind_var = names[2] if len(names) == 4 else None
-        return isinstance(test, ast.Compare) and H.name_id(test.left) == kind_var and len(test.ops) == 1 and isinstance(test.ops[0], ast.Eq) and \
-            (lit(test.comparators[0]) == OPEN_N or H.name_id(test.comparators[0]) == "OPEN_END")
+        return kind_var is not None and (H.match(f"{kind_var} == {OPEN_N}", test) is not None or H.match(f"{kind_var} == OPEN_END", test) is not None)
     lp = _loop_discipline(chk, new, f, open_new)
     srt = [c for c in H.calls(f) if H.name_id(c.func) == "sort_events"]
     chk.ob("C03.R3-builder", f"{NEW}: the analysed comparator sorts the endpoints before the scan", len(srt) == 1 and lp is not None and srt[0].lineno < lp.lineno, new.loc(f), found=[ast.unparse(s) for s in srt],
@@ -165,17 +179,17 @@ def _builders(db, chk, new, old, OPEN_N, CLOSE_N, START_O, END_O):
     else:
         chk.ob("C03.R4-encoding", f"{NEW}: endpoint array built by melt + replace", None, new.loc(f), found={"melt": len(melt), "replace": len(rep)})
     ends = [s for s in ast.walk(f) if isinstance(s, ast.Assign) and isinstance(s.targets[0], ast.Subscript) and lit(s.targets[0].slice) == "end"]
-    chk.ob("C03.R4-encoding", f"{NEW}: end = ts + dur", len(ends) == 1 and ast.unparse(ends[0].value).replace(" ", "") in ("_df['ts']+_df['dur']", "_df['dur']+_df['ts']"), new.loc(f),
+    chk.ob("C03.R4-encoding", f"{NEW}: end = ts + dur", len(ends) == 1 and (H.match("$d['end'] = $d['ts'] + $d['dur']", ends[0]) or H.match("$d['end'] = $d['dur'] + $d['ts']", ends[0])) is not None, new.loc(f),
            found=[ast.unparse(e) for e in ends], accepted="_df['end'] = _df['ts'] + _df['dur']")
     if lp is not None and isinstance(lp.target, ast.Tuple):
         chk.ob("C03.R4-encoding", f"{NEW}: the scan unpacks rows in the array's column order", len(lp.target.elts) == 4, new.loc(lp), found=ast.unparse(lp.target), accepted="idx, dur, kind, time")
-    sel = [c for c in H.calls(f) if isinstance(c.func, ast.Attribute) and c.func.attr == "eq" and "stream" in ast.unparse(c.func.value)]
-    chk.ob("C03.R4-encoding", f"{NEW}: only host events (stream == -1) of the thread enter the stack", len(sel) == 1 and lit(sel[0].args[0]) == -1, new.loc(f), found=[ast.unparse(s) for s in sel], accepted="df['stream'].eq(-1)")
+    sel = [n for n, b in H.find_match("$d['stream'].eq(-1)", f) + H.find_match("$d['stream'] == -1", f) + H.find_match("$d.stream.eq(-1)", f) + H.find_match("$d.stream == -1", f)]
+    chk.ob("C03.R4-encoding", f"{NEW}: only host events (stream == -1) of the thread enter the stack", len(sel) == 1, new.loc(f), found=[ast.unparse(s) for s in sel], accepted="df['stream'].eq(-1)")
     # ---------------- deprecated builder (used by critical-path analysis)
     g = old.func("CallStackGraph._construct_call_stack_graph")
 
     def open_old(test, lp):
-        return isinstance(test, ast.Compare) and ast.unparse(test.left) == f"{H.name_id(lp.target)}.type" and isinstance(test.ops[0], ast.Eq) and H.name_id(test.comparators[0]) == "EVENT_START"
+        return H.match(f"{H.name_id(lp.target)}.type == EVENT_START", test) is not None
     lp2 = _loop_discipline(chk, old, g, open_old)
     srt2 = [c for c in H.calls(g) if isinstance(c.func, ast.Attribute) and c.func.attr == "sort" and "compare_events" in ast.unparse(c)]
     chk.ob("C03.R3-builder", f"{OLD}: the analysed comparator sorts the endpoints before the scan", len(srt2) == 1 and lp2 is not None and srt2[0].lineno < lp2.lineno and "cmp_to_key(compare_events)" in ast.unparse(srt2[0]),
@@ -188,11 +202,18 @@ def _builders(db, chk, new, old, OPEN_N, CLOSE_N, START_O, END_O):
     evs = [c for c in H.calls(g) if H.name_id(c.func) == "Event"]
     got = sorted(tuple(ast.unparse(a) for a in c.args) for c in evs)
     want = sorted([("row.index", "row.ts", "row.dur", "EVENT_START"), ("row.index", "row.end", "row.dur", "EVENT_END")])
-    chk.ob("C03.R4-encoding", f"{OLD}: every row yields Event(id, ts, dur, START) and Event(id, end, dur, END)", got == want, old.loc(g), found=got, accepted=want,
+    bb = H.Bindings()
+    oke = len(evs) == 2
+    for c in sorted(evs, key=lambda c: ast.unparse(c.args[-1]) if c.args else ""):
+        r = H.match("Event($r.index, $r.end, $r.dur, EVENT_END)", c, bb) or H.match("Event($r.index, $r.ts, $r.dur, EVENT_START)", c, bb)
+        oke = oke and r is not None
+        bb = r or bb
+    oke = oke and {ast.unparse(c.args[-1]) for c in evs} == {"EVENT_START", "EVENT_END"}
+    chk.ob("C03.R4-encoding", f"{OLD}: every row yields Event(id, ts, dur, START) and Event(id, end, dur, END)", oke, old.loc(g), found=got, accepted=want,
            why="positional construction must agree with the field order the comparator reads")
     endo = [s for s in ast.walk(g) if isinstance(s, ast.Assign) and isinstance(s.targets[0], ast.Subscript) and lit(s.targets[0].slice) == "end"]
     duro = [s for s in ast.walk(g) if isinstance(s, ast.Assign) and isinstance(s.targets[0], ast.Subscript) and lit(s.targets[0].slice) == "dur"]
-    okend = len(endo) == 1 and "df['ts']" in ast.unparse(endo[0].value) and "df['dur']" in ast.unparse(endo[0].value) and isinstance(endo[0].value, ast.BinOp) and isinstance(endo[0].value.op, ast.Add)
-    okdur = len(duro) == 1 and ast.unparse(duro[0].value).replace(" ", "") in ("np.maximum(df['dur'],0)",)
+    okend = len(endo) == 1 and any(H.match(p_, endo[0]) is not None for p_ in ("$d['end'] = $d['ts'] + $d['dur'].astype(int)", "$d['end'] = $d['ts'] + $d['dur']", "$d['end'] = $d['dur'].astype(int) + $d['ts']", "$d['end'] = $d['dur'] + $d['ts']"))
+    okdur = len(duro) == 1 and any(H.match(p_, duro[0]) is not None for p_ in ("$d['dur'] = np.maximum($d['dur'], 0)", "$d['dur'] = np.maximum(0, $d['dur'])", "$d['dur'] = $d['dur'].clip(lower=0)"))
     chk.ob("C03.R4-encoding", f"{OLD}: end = ts + max(dur, 0)", okend and okdur, old.loc(g), found=[ast.unparse(x) for x in duro + endo], accepted=["df['dur'] = np.maximum(df['dur'], 0)", "df['end'] = df['ts'] + df['dur']"])
     chk.ob("C03.R4-encoding", f"{OLD}: START/END constants differ", START_O != END_O, OLD, found=[START_O, END_O], accepted="distinct")
